@@ -60,6 +60,17 @@ func (c *FnCtx) instr(ins ssa.Instruction) {
 		switch u := el.Underlying().(type) {
 		case *types.Struct:
 			c.zeroObject(c.vals[x], el)
+			// ghost state attached to a zero value of this type (e.g. an empty strings.Builder)
+			for _, zg := range c.g.specs.ZeroGhost {
+				if c.tt.typeName(el) == sanitize(zg[0]) {
+					if comp, _, ok := c.ghostGlobal(zg[1]); ok {
+						old := c.get(c.st, comp)
+						n := c.freshComp(comp)
+						c.assume(eq(n, app("store", old, c.vals[x], numStr(zg[2]))))
+						c.set(comp, n)
+					}
+				}
+			}
 		case *types.Array:
 			comp := c.elemComp(u.Elem())
 			old := c.get(c.st, comp)
@@ -455,6 +466,15 @@ func (c *FnCtx) strEq(a, b Term, x, y ssa.Value) Term {
 }
 
 func (c *FnCtx) strEqLit(a Term, s string) Term {
+	// both sides literal: decide now (keeps per-format contracts of Sprintf & co. small)
+	for lit, t := range c.strLits {
+		if t == a {
+			if lit == s {
+				return "true"
+			}
+			return "false"
+		}
+	}
 	parts := []Term{eq(app("str-len", a), num(int64(len(s))))}
 	for i := 0; i < len(s); i++ {
 		parts = append(parts, eq(app("select", app("str-arr", a), num(int64(i))), num(int64(s[i]))))
@@ -498,9 +518,8 @@ func (c *FnCtx) binop(x *ssa.BinOp) {
 	}
 	t := x.Type()
 	if isString(t) && x.Op == token.ADD {
-		r := c.defFresh(x)
-		c.assume(eq(app("str-len", r), app("+", app("str-len", a), app("str-len", b))))
-		c.assume(app("concat-def", r, a, b))
+		// concatenation is a function of its operands (strcat), so specifications can talk about it
+		c.def(x, app("strcat", a, b))
 		return
 	}
 	if isFloat(t) {
@@ -643,8 +662,13 @@ func (c *FnCtx) convert(x *ssa.Convert) {
 			ref := c.allocRef()
 			r := c.defFresh(x)
 			c.assume(and(eq(app("s-ref", r), ref), eq(app("s-off", r), "0"), app("<=", app("s-len", r), app("str-len", a))))
+			// contents of the new array unknown; every existing array untouched
 			comp := c.elemComp(el)
-			c.set(comp, c.freshComp(comp)) // contents unknown
+			old := c.get(c.st, comp)
+			n := c.freshComp(comp)
+			fa := c.freshConst("runes", "(Array Int "+c.sortOf(el)+")")
+			c.assume(eq(n, app("store", old, ref, fa)))
+			c.set(comp, n)
 		}
 	case isSlice(from) && isString(to):
 		el := from.Underlying().(*types.Slice).Elem()
